@@ -185,6 +185,10 @@ def variadic_or_posonly(spec: Any, disc: Disc) -> bool:
     return False
 
 
+# a view's public method may carry any public name - also the names of the things the library hands to a view or keeps about a method
+VIEW_METHOD_NAMES = ['v.meth', 'v.meth', 'v.context', 'v.meth', 'v.request', 'v.method', 'v.name', 'v.dispatcher']
+
+
 class C04(Check):
     pid = 'C04'
     level = 'exploration'
@@ -228,7 +232,7 @@ class C04(Check):
                         k += 1
                         if k % nshards != shard:
                             continue
-                        m = {'name': 'v.meth' if variant['flavour'] in ('view', 'aview') else 'meth', **variant}
+                        m = {'name': VIEW_METHOD_NAMES[k % len(VIEW_METHOD_NAMES)] if variant['flavour'] in ('view', 'aview') else 'meth', **variant}
                         for n_shape, shape in enumerate(param_shapes(m['params'])):
                             spec = {'dispatcher': disp, 'method': m, 'params': shape, 'id': 1, 'behaviour': {'kind': 'echo'}}
                             if m['ctx'] != 'none':
@@ -264,13 +268,15 @@ class C04(Check):
         s_ctxv = st.sampled_from(sh.CTX_KINDS)
         s_carrier = st.sampled_from(['single', 'single', 'batch', 'batch-sequential'])
 
+        s_vname = st.sampled_from(VIEW_METHOD_NAMES)
+
         @st.composite
         def case(draw):
             params = normalise(draw(s_raw))
             disp = draw(s_disp)
             variants = list(ctx_variants(params, disp == 'async'))
             variant = variants[draw(s_variant) % len(variants)]
-            m = {'name': 'v.meth' if variant['flavour'] in ('view', 'aview') else 'meth', **variant}
+            m = {'name': draw(s_vname) if variant['flavour'] in ('view', 'aview') else 'meth', **variant}
             shape = draw(s_shape)
             if shape == 'absent':
                 p: Dict[str, Any] = {'absent': True}
